@@ -68,6 +68,7 @@ func main() {
 		timeoutMs = flag.Int("timeout", 20000, "per-query timeout (ms)")
 		retryMs   = flag.Int("retry", 120000, "fresh-solver retry budget for unknown answers (ms, 0 = off)")
 		maxViol   = flag.Int("maxviol", 400, "stop exploring after this many violating path classes (0 = no limit)")
+		capPref   = flag.String("capprefix", "", "comma-separated assertion-label prefixes that count toward -maxviol (empty = all)")
 		crossN    = flag.Int("crosscheck", 0, "re-check the closing unsat query of every N-th path class with z3 4.8.12 (0 = off)")
 		trackW    = flag.Bool("trackwrites", false, "record write footprints")
 		traceSMT  = flag.String("tracesmt", "", "file to dump SMT text to (worker 0)")
@@ -181,7 +182,7 @@ func main() {
 
 	ex := &Explorer{prog: P, entry: entry, cfg: Config{Workers: *workers, MaxDecisions: *maxDec, MaxConcretize: *maxConc, MaxSteps: *maxSteps,
 		MaxPaths: *maxPaths, SolverBin: *solverBin, SolverArgs: solverArgs(*solverBin), TimeoutMs: *timeoutMs, Params: output.Params, Picks: output.Picks,
-		TrackWrites: *trackW, Tally: os.Getenv("GOSYM_TALLY") != "", TraceSMT: *traceSMT, RetryMs: *retryMs, CrossCheck: *crossN, MaxViol: *maxViol}}
+		TrackWrites: *trackW, Tally: os.Getenv("GOSYM_TALLY") != "", TraceSMT: *traceSMT, RetryMs: *retryMs, CrossCheck: *crossN, MaxViol: *maxViol, CapPrefixes: splitNonEmpty(*capPref)}}
 	if *deadline > 0 {
 		ex.cfg.Deadline = time.Now().Add(time.Duration(*deadline) * time.Second)
 	}
@@ -291,4 +292,14 @@ func (p *Program) runInits(root *ssa.Package) []string {
 	p.frozen = true
 	p.dbgGlobals()
 	return notes
+}
+
+func splitNonEmpty(s string) []string {
+	var out []string
+	for _, p := range strings.Split(s, ",") {
+		if p != "" {
+			out = append(out, p)
+		}
+	}
+	return out
 }
